@@ -287,7 +287,7 @@ def check_state(ctx, key, what, expr, target_expr, setup="", ob="C20_search", cm
     return not failed
 
 
-def expect_raises(ctx, key, exc, stmt):
+def expect_raises(ctx, key, exc, stmt, ob="C20_search_errors"):
     env = dict(ns())
     ctx.case((key, stmt))
     ctx.stat("search:errors")
@@ -301,7 +301,7 @@ def expect_raises(ctx, key, exc, stmt):
         got = "no exception"
     py = PRE + f"try:\n    {stmt}\nexcept {exc}:\n    sys.exit(0)\nexcept Exception as e:\n    print(repr(e)); sys.exit(1)\nsys.exit(1)\n"
     ctx.fail(key, f"`{stmt}` should raise {exc} (documented admissibility check), got {got}", py,
-             expected=exc, observed=got, broken=["C20_search_errors"])
+             expected=exc, observed=got, broken=[ob])
     return False
 
 
@@ -687,6 +687,118 @@ def search_binary(ctx):
     expect_raises(ctx, "binary_encoder:errors", "ValueError", "E.binary_encoder(np.ones(5))")
     expect_raises(ctx, "binary_encoder:errors", "ValueError", "E.binary_encoder(np.ones(6), 'hopf')")
     ctx.ob("C20_search_binary", ok, "search", "" if ok else "binary encoder differs from x/|x|")
+
+
+# ---------------------------------------------------------------------------
+# round 5: the same mathematical input in every representation the API accepts
+# ---------------------------------------------------------------------------
+
+DATA_FORMS = {
+    "float64": ("np.array(v, dtype=np.float64)", True),
+    "float32": ("np.array(v, dtype=np.float32)", True),
+    "int64": ("np.array(v, dtype=np.int64)", True),
+    "int32": ("np.array(v, dtype=np.int32)", True),
+    "complex128-zero-imag": ("np.array(v, dtype=np.complex128)", False),
+    "complex64-zero-imag": ("np.array(v, dtype=np.complex64)", False),
+    "circuit-state": ("np.asarray(v, dtype=float) + 0j", False),
+    "list": ("list(v)", False),
+    "int-list": ("[int(t) for t in v]", False),
+    "tuple": ("tuple(v)", False),
+}
+
+
+def search_dtypes(ctx):
+    """one signed integer-valued vector handed to every encoder as float64 / float32 / int / complex dtype
+    with identically zero imaginary part / list / tuple: the encoder must load the SIGNED normalised data
+    or refuse the input (ndarray of a real dtype -- and a list for unary_encoder -- must be accepted)."""
+    rng = ctx.rng
+    ok = True
+    encs = [
+        ("unary_encoder:diagonal", (3, 4, 6), lambda n: n, "E.unary_encoder(x, 'diagonal')", "unary_target(v)", ("list", "int-list")),
+        ("unary_encoder:tree", (2, 4, 8), lambda n: n, "E.unary_encoder(x, 'tree')", "unary_target(v)", ("list", "int-list")),
+        ("hamming_weight_encoder", (3, 4, 5), lambda n: math.comb(n, 2), "E.hamming_weight_encoder(x, NN, 2)", "hw_target(v, NN, 2)", ()),
+        ("binary_encoder:hyperspherical", (1, 2, 3), lambda n: 2**n, "E.binary_encoder(x, 'hyperspherical')", "np.asarray(v, dtype=float)/np.linalg.norm(v)", ()),
+        ("binary_encoder:hopf", (1, 2, 3, 4), lambda n: 2**n, "E.binary_encoder(x, 'hopf')", "np.asarray(v, dtype=float)/np.linalg.norm(v)", ()),
+    ]
+    for name, sizes, dim, ctor, target, extra_must in encs:
+        for n in sizes:
+            d = dim(n)
+            for rep in range(2 if ctx.thorough else 1):
+                v = [float(rng.choice([-4, -3, -2, -1, 1, 2, 3, 5])) for _ in range(d)]
+                v[rng.randrange(d)] = -abs(v[0]) - 1.0           # at least one negative entry
+                if d > 2 and rng.random() < 0.5:
+                    v[rng.randrange(d)] = 0.0
+                if not any(t < 0 for t in v):
+                    v[0] = -2.0
+                for form, (expr, must) in DATA_FORMS.items():
+                    must = must or form in extra_must
+                    c_, t_ = ctor.replace("NN", str(n)), target.replace("NN", str(n))
+                    setup = f"v = {v}\nx = {expr}\nrefused = None\ntry:\n    s = run({c_})\nexcept Exception as e:\n    refused = e\n    s = {t_}\n"
+                    if must:
+                        setup += "if refused is not None:\n    raise refused\n"
+                    good = check_state(ctx, f"{name}:dtype:{form}", f"{name} given the vector {v} as {form} neither loads the signed normalised data nor refuses it",
+                                       "s", t_, setup, "C20_search_dtypes", "lambda s, t: bad_rel(s, t, 1e-6, 1e-6)")
+                    ok &= good
+                    ctx.stat(f"dtype:{form}")
+    ctx.ob("C20_search_dtypes", ok, "search", "" if ok else "an encoder loads different states for the same vector in different dtypes / containers")
+
+
+BOOL_FLAGS = (("np.bool_(True)", True), ("(np.arange(3) >= 0).all()", True), ("1", True), ("np.int64(1)", True), ("np.int8(1)", True),
+              ("np.bool_(False)", False), ("(np.arange(3) > 5).any()", False), ("0", False), ("np.int64(0)", False))
+
+
+def search_boolflags(ctx):
+    """boolean keywords given as numpy booleans / 0 / 1 / numpy integers: same circuit as for the python
+    bool of the same truth value (identity tests `flag is True`, `flag == 1.0` on arrays ... break this)."""
+    ok = True
+    setup_dft = ("def dft(n):\n    N = 2**n\n    j = np.arange(N)\n    return np.exp(2j*np.pi*np.outer(j, j)/N)/np.sqrt(N)\n"
+                 "def qtxt(c):\n    return [(g.name, tuple(g.control_qubits), tuple(g.target_qubits), tuple(float(np.real(p)) for p in g.parameters)) for g in c.queue]\n")
+    for flag, truth in BOOL_FLAGS:
+        for n in (2, 3, 5):
+            ok &= check_state(ctx, "QFT:with_swaps:bool-like", f"QFT({n}, with_swaps={flag}) differs from QFT({n}, with_swaps={truth})",
+                              f"QFT({n}, with_swaps={flag}).unitary(nb)", f"QFT({n}, with_swaps={truth}).unitary(nb)", setup_dft, "C20_search_boolflags")
+            ok &= check_state(ctx, "QFT:with_swaps:bool-like", f"QFT({n}, {flag}) (positional) differs from QFT({n}, {truth})",
+                              f"[float(qtxt(QFT({n}, {flag})) == qtxt(QFT({n}, {truth})))]", "[1.0]", setup_dft, "C20_search_boolflags")
+        if truth:
+            ok &= check_state(ctx, "QFT:with_swaps:bool-like", f"QFT(4, with_swaps={flag}, accelerators=...) is not the DFT",
+                              f"QFT(4, with_swaps={flag}, accelerators={{'/GPU:0': 2}}).unitary(nb)", "dft(4)", setup_dft, "C20_search_boolflags")
+        else:
+            ok &= expect_raises(ctx, "QFT:with_swaps:bool-like", "NotImplementedError", f"QFT(4, with_swaps={flag}, accelerators={{'/GPU:0': 2}})", "C20_search_boolflags")
+        for kw in ("full_hwp", "optimize_controls", "phase_correction"):
+            for data in ("np.array([1., -2., 0.5, 3., -1., 2.])", "np.array([1., -2., 0.5, 3., -1., 2.]) * np.exp(1j*np.arange(6))"):
+                ok &= check_state(ctx, f"hamming_weight_encoder:{kw}:bool-like", f"hamming_weight_encoder(…, {kw}={flag}) differs from {kw}={truth}",
+                                  f"[float(qtxt(E.hamming_weight_encoder({data}, 4, 2, {kw}={flag})) == qtxt(E.hamming_weight_encoder({data}, 4, 2, {kw}={truth})))]", "[1.0]",
+                                  setup_dft, "C20_search_boolflags")
+        # (entangling_layer documents a TypeError for a closed_boundary that is not a python bool: not driven here)
+        ok &= check_state(ctx, "_ehrlich_algorithm:return_indices:bool-like", f"_ehrlich_algorithm(…, return_indices={flag}) differs from return_indices={truth}",
+                          f"[float(repr(E._ehrlich_algorithm(np.array([1, 1, 0, 0]), {flag})) == repr(E._ehrlich_algorithm(np.array([1, 1, 0, 0]), {truth})))]", "[1.0]",
+                          setup_dft, "C20_search_boolflags")
+        ok &= check_state(ctx, "Circuit-kwargs:density_matrix:bool-like", f"ghz_state(3, density_matrix={flag}) differs from density_matrix={truth}",
+                          f"run(E.ghz_state(3, density_matrix={flag}))", f"run(E.ghz_state(3, density_matrix={truth}))", setup_dft, "C20_search_boolflags")
+    ctx.ob("C20_search_boolflags", ok, "search", "" if ok else "a boolean keyword given as a numpy bool / 0 / 1 builds a different circuit than the python bool")
+
+
+def search_lengths(ctx):
+    """admissibility checks at LARGE sizes: lengths just above / below a power of two must be refused
+    with the documented ValueError exactly as small ones (construction only; nothing is executed)."""
+    bad = 0
+    kmax = 17 if ctx.thorough else 16
+    for k in range(2, kmax + 1):
+        for m in (1, -1, 2, -2, 3):
+            L = 2**k + m
+            if L < 1 or L & (L - 1) == 0:
+                continue
+            stmts = [f"E.binary_encoder(np.ones({L}), 'hopf')", f"E.binary_encoder(np.ones({L}))"]
+            if m in (1, -1):
+                stmts += [f"E.binary_encoder(np.ones({L}, dtype=complex), 'hyperspherical')", f"E.unary_encoder(np.ones({L}), 'tree')",
+                          f"E.unary_encoder(np.ones({L}).tolist(), 'tree')"]
+            for stmt in stmts:
+                if bad >= 3:
+                    break          # a tree that accepts such lengths builds huge circuits: three replays are enough
+                if not expect_raises(ctx, "length-validation:large", "ValueError", stmt, "C20_search_lengths"):
+                    bad += 1
+            ctx.stat(f"length_validation:k{k}")
+    ctx.ob("C20_search_lengths", bad == 0, "search", "" if bad == 0 else "a length that is not a power of two is accepted")
 
 
 def search_independence(ctx):
@@ -1303,6 +1415,9 @@ def run(ctx):
     chain_hypotheses(ctx)
     search_binary(ctx)
     search_scales(ctx)
+    search_dtypes(ctx)
+    search_boolflags(ctx)
+    search_lengths(ctx)
     search_independence(ctx)
     search_layers(ctx)
     ctx.notes.append(
